@@ -254,8 +254,39 @@ def run(ctx):
         T, Fa, _ = call_bool_edges(ap, "pgcat::config::Pool::is_auth_query_configured")
         uw = [s_ for s_ in panic_sites(ap, include_expansion=False) if s_["kind"] == "unwrap"]
         ok = bool(T) and all(ap.uncrossed_path([0], [s_["block"]], edges=T) is None for s_ in uw)
+        # ... and the guard really vouches for every field unwrapped under it: it returns true only when each of them is_some()
+        pb = F.body("pgcat::config::Pool::is_auth_query_configured")
+        need_f = set()
+        for s_ in uw:
+            for op in s_["ops"]:
+                for o in origins(ap, op, taint=True):
+                    if o.kind in ("place", "param"):
+                        need_f.update(p_[1:] for p_ in o.proj if p_.startswith(".") and not p_[1:].isdigit())
+        need_f = {f for f in need_f if f.startswith("auth_query")}
+        unvouched = []
+        if pb is not None and need_f:
+            psw = switches(pb)
+            rets = [bb for bb, blk in enumerate(pb.blocks) if blk["term"]["k"] == "return"]
+            false_blocks = [blk for blk, i, st in pb.assigns() if st["lhs"]["l"] == 0 and not st["lhs"]["p"] and st["rv"]["k"] == "use" and const_int(st["rv"].get("op")) == 0]
+            fld_of = lambda c: {p_[1:] for o in origins(pb, c.args[0]) if o.kind in ("place", "param") for p_ in o.proj if p_.startswith(".") and not p_[1:].isdigit()}
+            for f in sorted(need_f):
+                S_f = set()
+                for sw2, o, te, fe in bool_value_edges(pb, lambda o: o.kind == "call" and o.call.name.endswith("Option::is_some") and f in fld_of(o.call), psw):
+                    S_f.add(te)
+                D_f = [c.block for c in pb.calls("core::option::Option::is_some") if f in fld_of(c) and c.dest_local == 0] if hasattr(Call, "dest_local") else []
+                if not D_f:
+                    D_f = [bb for bb, blk in enumerate(pb.blocks) if blk["term"]["k"] == "call" and blk["term"].get("dest", {}).get("l") == 0 and not blk["term"].get("dest", {}).get("p")
+                           and any(c.block == bb and f in fld_of(c) for c in pb.calls("core::option::Option::is_some"))]
+                w = pb.uncrossed_path([0], rets, edges=S_f, blocks=D_f + false_blocks)
+                if w is not None:
+                    unvouched.append(f)
+        else:
+            unvouched = ["?"]
+        ok = ok and not unvouched
         V["call-site:is_auth_query_configured"] = ok
-        rs.check(ok, "guard:is_auth_query_configured", "auth_query unwraps are under is_auth_query_configured()==true", "auth_query unwraps are not guarded by is_auth_query_configured()")
+        rs.check(not unvouched, "guard-vouches:is_auth_query_configured", "is_auth_query_configured() returns true only when %s are all set" % sorted(need_f),
+                 "is_auth_query_configured() can return true although %s is None (it does not test it): a pool with the other auth_query settings but without this one passes Config::validate and from_pool_config panics on the unwrap when the pools are built" % unvouched)
+        rs.check(ok or bool(unvouched), "guard:is_auth_query_configured", "auth_query unwraps are under is_auth_query_configured()==true", "auth_query unwraps are not guarded by is_auth_query_configured()")
 
     # ------------------------------------------------------------ obligations
     ro = ctx.rule("C15-O", "obligations: every panic-capable / positional use of a configuration quantity is discharged by the validators of that quantity", floor=25)
